@@ -3,6 +3,9 @@
 History machine over one long-lived SRF (RandMeth / IncomprRandMeth / Fourier) and its twin.
 Oracles: fresh-object refinement (nugget free), twin execution (any nugget).
 """
+import contextlib
+import io
+
 import numpy as np
 
 import gstools as gs
@@ -378,10 +381,18 @@ class Machine:
         if f == "errstate_raise":
             # placed right after an in-place model change, so that the generator has work in
             # flight (model copy, resampling) when the call trips
-            return {"fault": f, "kind": rng.choice(["divide", "invalid"]),
-                    "idx": rng.sample(range(self.npool), min(3, self.npool)),
-                    "set_first": {"param": "len_scale", "value": rng.choice(cm.LEN_GRID)}
-                    if rng.random() < 0.7 else None}
+            op = {"fault": f, "kind": rng.choice(["divide", "invalid", "under", "under", "all"]),
+                  "idx": rng.sample(range(self.npool), min(3, self.npool)),
+                  "set_first": {"param": "len_scale", "value": rng.choice(cm.LEN_GRID)}
+                  if rng.random() < 0.7 else None}
+            m = self.spec["model"]
+            if m["cls"] not in cm.TRAP_PRONE and rng.random() < 0.5 and self.flavor == "plain":
+                # most families never trip a trap: move to one that does (measured: underflow
+                # in Stable / TPLStable sampling, negative numerical spectrum of Rational)
+                new = cm.gen_model_spec(rng, self.mdim, name=rng.choice(cm.TRAP_PRONE),
+                                        nugget=m["nugget"])
+                op["assign_first"] = new
+            return op
         if f == "foreign_hankel":
             return {"fault": f, "kw": rng.choice([{"N": 300}, {"N": 200, "h": 0.003}])}
         if f == "rejected_seed" and self.spec["gen"]["kind"] == "Fourier" and rng.random() < 0.5:
@@ -732,6 +743,13 @@ class Machine:
             raise Inapplicable("no points")
         gen_op = {"op": "gen", "layout": "unstructured", "idx": idx, "via": "call",
                   "seed": {"mode": "keep"}, "store": True, "post": True}
+        if op.get("assign_first"):
+            try:
+                self._apply_assign({"op": "assign_model", "model": op["assign_first"]})
+                # the generator takes the family over in an ordinary call first
+                self._apply_gen(dict(gen_op, idx=idx[:1]))
+            except Inapplicable:
+                pass
         if op.get("set_first"):
             try:
                 self._apply_set({"op": "set", "param": op["set_first"]["param"],
@@ -746,7 +764,8 @@ class Machine:
         except FloatingPointError:
             self.ctx.probe("call_failed_midway")
             self.ctx.probe("errstate_raise.tripped")
-            self.last = ("u", idx)
+            # whether a failed call had already stored its positions is not specified
+            self.last = None
             self.twin = None  # the twin was not called: from here on single execution
             self.rng_fresh = False
             self.model_at_last_gen = None
@@ -814,6 +833,13 @@ class Machine:
             kw["seed"] = self._seed_obj(side, seed_arg["value"], seed_arg["obj"])
         via = op.get("via", "call")
         errctx = getattr(self, "errctx", None) or {}
+        if errctx:
+            # emcee prints a report to stdout when the likelihood raises under the trap
+            with contextlib.redirect_stdout(io.StringIO()):
+                return self._call_inner(srf, kw, via, errctx, pos, mesh_type)
+        return self._call_inner(srf, kw, via, errctx, pos, mesh_type)
+
+    def _call_inner(self, srf, kw, via, errctx, pos, mesh_type):
         if pos is None:
             with np.errstate(**errctx):
                 return srf(**kw)
